@@ -135,7 +135,7 @@ impl Property for C04 {
     }
 
     fn rule(&self) -> String {
-        "sequences of 1..=8 items: legacy/xterm/fixterms keys from the pinned naming table (every entry x modifier), printable text of any scalar values, SGR-1006 mouse (all 256 button codes, coords 1..65535 boundary-biased), CPR, DECRPM (every mode x status), DA1, SGR and DECRPSS parameter lists (all three truecolour spellings, 256-colour, named, attributes on/off, several colours in one sequence), OSC 4/10/11 colour replies (1-4 hex digits, #rrggbb, BEL/ST), XTGETTCAP success/failure, kitty keyboard (functional keys, F13-F35, any non-PUA scalar, alternates, mods 0..256, text field) and level reports, kitty graphics responses, XTWINOPS size pair, bracketed paste, and the CSI introducer followed by 0-6 parameter bytes and a non-ASCII character (no control sequence can contain one: the introducer is the alt+[ key and the bytes behind it are ordinary keys, in order); concatenated and decoded in one buffer; exhaustive sweep over every table key, every mouse code, every palette index. non-trivial = two adjacent items of different families or a boundary-valued parameter".into()
+        "sequences of 1..=8 items: legacy/xterm/fixterms keys from the pinned naming table (every entry x modifier), printable text of any scalar values, SGR-1006 mouse (all 256 button codes, coords 1..65535 boundary-biased), CPR, DECRPM (every mode x status), DA1, SGR and DECRPSS parameter lists (all three truecolour spellings, 256-colour, named, attributes on/off, several colours in one sequence), OSC 4/10/11 colour replies (1-4 hex digits, #rrggbb, BEL/ST), XTGETTCAP success/failure, kitty keyboard (functional keys, F13-F35, any non-PUA scalar, alternates, mods 0..256, text field) and level reports, kitty graphics responses, XTWINOPS size pair, bracketed paste (up to 12 characters, rarely 1000-5000), and the CSI introducer followed by 0-6 parameter bytes and a non-ASCII character (no control sequence can contain one: the introducer is the alt+[ key and the bytes behind it are ordinary keys, in order); concatenated and decoded in one buffer; exhaustive sweep over every table key, every mouse code, every palette index. non-trivial = two adjacent items of different families or a boundary-valued parameter".into()
     }
 
     fn assumptions(&self) -> Vec<String> {
